@@ -19,6 +19,34 @@ def switch_table(src, fn):
     return tab
 
 
+def key_alternatives(t):
+    """C++ type text of the per-checkable group key -> list of alternatives (a std::variant is a sum, anything else one)."""
+    t = re.sub(r'\s+', '', t).replace('icinga::', '')
+    m = re.fullmatch(r'std::variant<(.*)>', t)
+    alts = m.group(1).split(',') if m else [t]
+    if not all(re.fullmatch(r'[A-Za-z_][\w:]*\*?', a) for a in alts):
+        return None
+    return alts
+
+
+def group_key_fact(rd, cd, log):
+    """key type of Checkable::m_DependencyGroups / m_PendingDependencies and the return type of GetDependencyGroupKey():
+    the model's dg_key is a sum (parent identity | group name); the three places must agree."""
+    hpp = rd('lib/icinga/checkable.hpp')
+    found = []
+    m = re.search(r'std::map\s*<\s*((?:std::variant\s*<[^<>]*>)|[\w:]+\s*\*?)\s*,\s*intrusive_ptr\s*<\s*DependencyGroup\s*>\s*>\s*m_DependencyGroups\s*;', hpp)
+    found.append(m.group(1) if m else None)
+    m = re.search(r'std::unique_ptr\s*<\s*std::map\s*<\s*((?:std::variant\s*<[^<>]*>)|[\w:]+\s*\*?)\s*,\s*std::set\s*<\s*intrusive_ptr\s*<\s*Dependency\s*>\s*>\s*>\s*>\s*m_PendingDependencies\b', hpp)
+    found.append(m.group(1) if m else None)
+    m = re.search(r'static\s+((?:std::variant\s*<[^<>]*>)|[\w:]+\s*\*?)\s+GetDependencyGroupKey\s*\(', cd)
+    found.append(m.group(1) if m else None)
+    alts = [key_alternatives(t) if t else None for t in found]
+    if any(a is None for a in alts) or not (alts[0] == alts[1] == alts[2]):
+        log.append('C07: key type of m_DependencyGroups/m_PendingDependencies/GetDependencyGroupKey not recognised: %r' % (found,))
+        return 'Definition f_dependency_group_key_alternatives : option (list string) := None.\n'
+    return 'Definition f_dependency_group_key_alternatives : option (list string) := Some [%s]%%string.\n' % '; '.join('"%s"' % a for a in alts[0])
+
+
 def run(rd, emit, log, enum_values, ti_default):
     body = 'Require Import Icv.Facts.Facts_enums.\n\n'
     cd = rd('lib/icinga/checkable-dependency.cpp')
@@ -50,4 +78,5 @@ def run(rd, emit, log, enum_values, ti_default):
     else:
         log.append('C07: HostStateToFilter not recognised')
         body += 'Definition f_host_state_to_filter : option (list (Z * Z)) := None.\n'
+    body += group_key_fact(rd, cd, log)
     emit('Facts_c07.v', body)
